@@ -121,7 +121,7 @@ CLAIMS = {
         technique="Lean 4 structural safety theorem over all driver programs and all answers, for every buffer size + interpreter lift by induction + ASan/UBSan builds at five buffer sizes",
         design="7 C08"),
     'C09': dict(
-        text="Proof for 36 setter cases, correspondence for the rest. For each configuration function (FSK/OOK: crc, encoding, packet format, "
+        text="Proof for 39 setter cases. For each configuration function (FSK/OOK: crc, encoding, packet format, "
              "address filtering, preamble type/detector, sync-independent RxConfig fields (collision restart, AFC auto, trigger), RSSI config, "
              "bandwidths, temperature monitor, bit rate, deviation, data shaping; OOK demodulator modes; LoRa: sync word, FIFO bases, LDRO "
              "override, implicit/explicit header, hop period; both: preamble length, LNA gain/boost, OCP, PA configuration, carrier frequency) a "
@@ -130,9 +130,11 @@ CLAIMS = {
              "encoding) updated. C09_frame/setFields_frame derive from any such list that every bit outside the listed fields of every "
              "register, the other page, the LoRa buffer and the FIFO are unchanged; C09_enumerators_fit_their_fields decides in the kernel, on "
              "the regenerated enumerator lists, that every documented argument lies inside its field; C09_fields_sharing_a_register_are_disjoint. "
-             "Bandwidth/spreading factor are C13, set_opmod is C15, the beacon is C14. set_syncword (burst write), set_ppm_offset and "
-             "rx_calibrate are covered by the correspondence (register file of the real driver = register file of the model after every call, "
-             "all 256 prior values of each touched register) only.",
+             "Bandwidth/spreading factor are C13, set_opmod is C15, the beacon is C14. The FSK/OOK sync word (every word of 1..8 non-zero bytes: "
+             "burst write = list of whole-register fields, writeN_regFields), the LoRa ppm correction (for every error whose float correction is "
+             "representable: RegPpmCorrection holds its two's-complement byte) and rx_calibrate (standby, no calibration running: only ImageCalStart) "
+             "have theorems of the same form. In addition the correspondence compares the register file of the real driver with that of the model after every call "
+             "for all 256 prior values of each touched register.",
         technique="Lean 4 symbolic execution of each setter over a register-file view + generic frame theorem + kernel-decided enumerator facts + exhaustive prior-value scripts",
         design="7 C09"),
     'C10': dict(
